@@ -43,6 +43,7 @@ type VirtualMachine struct {
 	importer     importer.Importer
 	os           os.OS
 	modules      map[string]*object.Module
+	importing    map[string]bool
 	inputGlobals map[string]any
 	globals      map[string]object.Object
 	loadedCode   map[*compiler.Code]*code
@@ -1164,6 +1165,16 @@ func (vm *VirtualMachine) importModule(ctx context.Context, name string) (*objec
 	if vm.importer == nil {
 		return nil, fmt.Errorf("imports are disabled")
 	}
+	// A module that (directly or through others) imports itself would be
+	// loaded and run again and again, until the frame stack overflows
+	if vm.importing[name] {
+		return nil, fmt.Errorf("import cycle: module %q is imported while it is being loaded", name)
+	}
+	if vm.importing == nil {
+		vm.importing = map[string]bool{}
+	}
+	vm.importing[name] = true
+	defer delete(vm.importing, name)
 	module, err := vm.importer.Import(ctx, name)
 	if err != nil {
 		return nil, err
